@@ -150,6 +150,7 @@ def run(ctx):
     if len(impls) < 14:
         ctx.anchor_missing(R, "SimHook impls")
         return
+    stop_offer_rule(ctx, c)
     n = 0
     for imp in sorted(impls, key=lambda i: i["def"]):
         sty = p_C36.short(imp.get("self", ""))
@@ -176,3 +177,92 @@ def run(ctx):
                                   "decisions are never offered to the exhaustive driver" % ("inclusive" if kind == "incl" else "exclusive", show(hi)), b.loc(bb))
                 elif form == "stored" and sty not in REVIEWED_STORED_LEN:
                     ctx.violation(R, vkey + "|stored-length-unreviewed", "the upper bound is a stored value (%s) that is not in the reviewed table" % show(hi), b.loc(bb))
+
+
+def stop_offer_rule(ctx, c):
+    """'Every subset for unordered inputs' includes the empty one and every proper prefix of a pick sequence: when a hook is *not* forced to make progress, each removal from
+    its pending queue must be preceded by a boolean draw that can decline it. Evaluated on the CFG specialised to force_nontrivial == false (edges of switches on the
+    parameter that need it to be true are pruned): every path from entry to a removal passes a `generate` on a bool generator."""
+    from mir import op_place, pl_local
+    R = ctx.rule("C37.stopoffer", "unordered-release hooks: when not forced, every removal from the pending queue is preceded by a boolean draw that can decline it (the empty and partial subsets are offered)", floor=3)
+    impls = [i for i in p_C36.hook_impls(c) if i.get("trait", "").endswith("::SimHook")]
+    for imp in sorted(impls, key=lambda i: i["def"]):
+        sty = p_C36.short(imp.get("self", ""))
+        if "TotalOrder" in sty or any(sty.startswith(h + "<") for h in p_C36.SNAPSHOT_HOOKS) or sty.startswith("PassthroughSingletonHook"):
+            continue      # ordered hooks draw a count from lo..=len (C37.fullrange); snapshot hooks must release when nothing was released yet
+        b = c.bodies.get(imp["def"] + "::autonomous_decision")
+        if b is None or b.argc < 3:
+            continue
+        removals = [bb for bb, t in b.calls() if (t.get("f") or {}).get("name") in ("remove", "pop_front", "swap_remove_back") and "vec_deque::" in (t.get("f") or {}).get("def", "") and not b.is_cleanup(bb)]
+        if not removals:
+            continue
+        # locals that are copies of the force_nontrivial parameter (_3), possibly reassigned to `false` (never to true)
+        force = {3}
+        for _bb, _i, lhs, rv in b.assignments():
+            if isinstance(lhs, int) and rv["k"] == "use" and isinstance(op_place(rv["ops"][0]), int) and op_place(rv["ops"][0]) in force:
+                force.add(lhs)
+        avoid = set()
+        for sb in range(b.n):
+            t = b.term(sb)
+            if t["k"] == "switch":
+                d = op_place(t["d"])
+                if isinstance(d, int) and d in force:
+                    # value 0 = false edge is kept; the otherwise / non-zero edges are pruned
+                    for v, tg in t["ts"]:
+                        if int(v) != 0:
+                            avoid.add((sb, tg))
+                    avoid.add((sb, t["o"]))
+        # constant propagation over the specialised CFG: a bool local whose every reachable definition is `const false` prunes its switches too
+        for _round in range(6):
+            def _reach():
+                seen, st = set(), [0]
+                while st:
+                    x = st.pop()
+                    if x in seen:
+                        continue
+                    seen.add(x)
+                    for y in b.succs(x):
+                        if (x, y) not in avoid:
+                            st.append(y)
+                return seen
+            live = _reach()
+            grew = False
+            for sb in live:
+                t = b.term(sb)
+                if t["k"] != "switch":
+                    continue
+                d = op_place(t["d"])
+                if not isinstance(d, int) or d in force:
+                    continue
+                def _is_false(l, depth=0):
+                    ds = [(db, idx, rv) for db, idx, rv in b.defs_of(l) if db in live]
+                    if not ds or depth > 4:
+                        return False
+                    for db, idx, rv in ds:
+                        if idx == "term" or rv["k"] != "use":
+                            return False
+                        o = rv["ops"][0]
+                        if str(mir.op_const(o)) == "false":
+                            continue
+                        pp = op_place(o)
+                        if isinstance(pp, int) and pp not in force and _is_false(pp, depth + 1):
+                            continue
+                        return False
+                    return True
+                if _is_false(d):
+                    for v, tg in t["ts"]:
+                        if int(v) != 0 and (sb, tg) not in avoid:
+                            avoid.add((sb, tg))
+                            grew = True
+                    if (sb, t["o"]) not in avoid:
+                        avoid.add((sb, t["o"]))
+                        grew = True
+            if not grew:
+                break
+        draws = set(bb for bb, t in b.calls() if (t.get("f") or {}).get("name") == "generate" and "bool" in ((t.get("f") or {}).get("self") or "") + " ".join((t.get("f") or {}).get("args") or []) and not b.is_cleanup(bb))
+        key = "hydro_lang|" + sty
+        ctx.inst(R, key, sites=len(removals), sample={"removals": len(removals), "boolean_draws": len(draws), "pruned_edges": len(avoid)})
+        ok, w = b.all_paths_pass(draws, set(removals), start=0, avoid_edges=avoid)
+        if not ok:
+            ctx.violation(R, key + "|removal-not-declinable", "with force_nontrivial == false there is a path to a removal from the pending queue that passes no boolean draw: the schedule in which this "
+                          "hook releases nothing (or stops earlier) is never offered to the exhaustive driver", b.loc(w if w is not None else removals[0]))
